@@ -1,4 +1,5 @@
 import re
+import threading
 from configparser import ConfigParser
 from io import StringIO
 from warnings import warn
@@ -1927,18 +1928,39 @@ class LazyCryptContext(CryptContext):
             kwds["schemes"] = schemes
         self._lazy_kwds = kwds
 
+    #: lock serializing the one-time initialization.  re-entrant, since
+    #: CryptContext.__init__() reads public attributes of the instance itself.
+    _lazy_lock = threading.RLock()
+
     def _lazy_init(self):
-        kwds = self._lazy_kwds
-        if "onload" in kwds:
-            onload = kwds.pop("onload")
-            kwds = onload(**kwds)
-        del self._lazy_kwds
-        super().__init__(**kwds)
-        self.__class__ = CryptContext
+        # NOTE: this may be invoked (via LazyCryptContext.__getattribute__) by a thread
+        #       which raced with the thread doing the initialization, after the instance
+        #       has already been turned into a plain CryptContext -- so it only goes
+        #       through the instance dict & names the class explicitly.
+        with LazyCryptContext._lazy_lock:
+            state = object.__getattribute__(self, "__dict__")
+            kwds = state.get("_lazy_kwds")
+            if kwds is None or "_lazy_loading" in state:
+                # another thread finished while we waited for the lock,
+                # or this is a nested call made by __init__() below.
+                return
+            if "onload" in kwds:
+                kwds = dict(kwds)
+                onload = kwds.pop("onload")
+                kwds = onload(**kwds)
+            state["_lazy_loading"] = True
+            try:
+                super().__init__(**kwds)
+            finally:
+                del state["_lazy_loading"]
+            # only switch the class & drop the pending options once fully initialized,
+            # so no thread ever sees a half-built context.
+            self.__class__ = CryptContext
+            del state["_lazy_kwds"]
 
     def __getattribute__(self, attr):
-        if (
-            not attr.startswith("_") or attr.startswith("__")
-        ) and self._lazy_kwds is not None:
-            self._lazy_init()
+        if (not attr.startswith("_") or attr.startswith("__")) and (
+            object.__getattribute__(self, "__dict__").get("_lazy_kwds") is not None
+        ):
+            LazyCryptContext._lazy_init(self)
         return object.__getattribute__(self, attr)
